@@ -10,7 +10,9 @@
 (* Every Python callable has an id, an arity (its parameters are the first  *)
 (* ar of x, y, z), optionally a leading `klong` parameter, logs each        *)
 (* invocation (id, received arguments, whether it got the interpreter) and  *)
-(* returns the fresh value id*1000 + (number of its invocations so far).    *)
+(* returns the fresh value id*1000 + (number of its invocations so far);    *)
+(* a callable stored with rz = TRUE raises after logging (the application   *)
+(* must then fail, after exactly one invocation).                           *)
 (*                                                                         *)
 (* events                                                                  *)
 (*  setdata(n, v)  setpy(n, id, ar, kl)  defkg(n, ar, body)  del(n)         *)
@@ -23,7 +25,7 @@
 (***************************************************************************)
 EXTENDS Integers, Sequences, FiniteSets, TLC
 
-None == [kind |-> "none", id |-> 0, ar |-> 0, kl |-> FALSE, body |-> "", v |-> ""]
+None == [kind |-> "none", id |-> 0, ar |-> 0, kl |-> FALSE, rz |-> FALSE, body |-> "", v |-> ""]
 MonInit(Names, Slots, MaxId) == [store |-> [n \in Names |-> None], cnt |-> [i \in 1..MaxId |-> 0],
                                  wraps |-> [w \in Slots |-> ""], bad |-> "ok"]
 
@@ -58,7 +60,7 @@ OverLog(id, c, acc, rest, out) ==       \* fold: acc f e1, ...
 Expected(m, e) ==
   LET s == m.store[e.n] c == m.cnt[s.id] IN
   CASE e.form \in {"direct", "at", "projl", "projr", "projm", "pyread"} ->
-         [log |-> <<[id |-> s.id, args |-> e.args]>>, res |-> Ret(s.id, c + 1), n |-> c + 1]
+         [log |-> <<[id |-> s.id, args |-> e.args]>>, res |-> IF s.rz THEN "raised" ELSE Ret(s.id, c + 1), n |-> c + 1]
     [] e.form = "each" ->
          [log |-> [i \in 1..Len(e.args) |-> [id |-> s.id, args |-> <<e.args[i]>>]],
           res |-> ListT([i \in 1..Len(e.args) |-> Ret(s.id, c + i)]), n |-> c + Len(e.args)]
@@ -91,7 +93,7 @@ Verdict(m, e) ==
 
 Apply(m, e) ==
   CASE e.op = "setdata" -> [m EXCEPT !.store[e.n] = [None EXCEPT !.kind = "data", !.v = e.v]]
-    [] e.op = "setpy" -> [m EXCEPT !.store[e.n] = [None EXCEPT !.kind = "py", !.id = e.id, !.ar = e.ar, !.kl = e.kl]]
+    [] e.op = "setpy" -> [m EXCEPT !.store[e.n] = [None EXCEPT !.kind = "py", !.id = e.id, !.ar = e.ar, !.kl = e.kl, !.rz = e.rz]]
     [] e.op = "defkg" -> [m EXCEPT !.store[e.n] = [None EXCEPT !.kind = "kg", !.ar = e.ar, !.body = e.body]]
     [] e.op = "del" -> [m EXCEPT !.store[e.n] = None]
     [] e.op = "getwrap" -> [m EXCEPT !.wraps[e.w] = e.n]
